@@ -19,6 +19,8 @@ import (
 )
 
 func (m *MTProto) sendPacket(request tl.Object, expectedTypes ...reflect.Type) (chan tl.Object, error) {
+	// (runs last, after the write lock is released: the caller has sent and does not yet wait for the answer)
+	defer verifYield("call:sent", request)
 	msg, err := tl.Marshal(request)
 	if err != nil {
 		return nil, errors.Wrap(err, "encoding request message")
